@@ -20,7 +20,167 @@ use crate::rawnet::*;
 use crate::rng::Rng;
 use crate::sim::*;
 
+/// *Asked again* family: peer X is slow to answer the first request it receives (0.55..0.95 s, later than the
+/// request timeout) and quick afterwards. While X's first answer is still on its way, the node sends X a second,
+/// unrelated request (another API call whose only value holder is X). Each request has its own transaction id:
+/// the late answer to the first request is not the answer to the second, and the genuine answer to the second -
+/// the value - must be accepted when it arrives.
+fn run_asked_again(ctx: &RunCtx) -> Report {
+    let mut report = Report::default();
+    let mut rng = Rng::new(ctx.seed);
+    let net = NetCfg { latency_min_us: 500, latency_max_us: rng.range(2_000, 30_000), ..NetCfg::default() };
+    let sim = Sim::new(ctx.seed, net);
+    sim.set_snap_mode(SnapMode::Off);
+    let rawnet = RawNet::new();
+    let n_peers = rng.usize(1, 6);
+    // X's ordinary answers take 300..440 ms (in time), its answer to the first call's request 0.7..1 s
+    let d2 = rng.range(300, 440) * MS;
+    let value = b"held by the slow starter only".to_vec();
+    let imm_target = krpc::immutable_target(&value);
+    let key = krpc::signing_key(rng.bytes(32).try_into().unwrap());
+    let pk = key.verifying_key().to_bytes();
+    let item = Item::signed(&key, None, 3, b"mutable, held by the slow starter only");
+    let info_hash: Id = rng.id();
+    let mut addrs = vec![];
+    for i in 0..n_peers {
+        let addr = SocketAddrV4::new(priv_ip(40 + i), 6000 + i as u16);
+        let mut p = Peer::new(rng.id(), addr);
+        p.k = 20;
+        p.delay = rng.range(0, 80) * MS;
+        if i == 0 {
+            p.immutable.insert(imm_target, value.clone());
+            p.mutable.insert(item.target(), item.clone());
+            p.peers.insert(info_hash, vec![SocketAddrV4::new(priv_ip(900), 9)]);
+            // its ordinary answers take 100..400 ms: the late answer to the first request often arrives
+            // while the second request is outstanding
+            p.delay = d2;
+        }
+        rawnet.add(&sim, p);
+        addrs.push(addr);
+    }
+    for i in 0..n_peers {
+        rawnet.with_peer(i, |p| p.knows = (0..n_peers).collect());
+    }
+    let mut spec = NodeSpec::new(priv_ip(1), 6881);
+    spec.server_mode = rng.chance(1, 3);
+    spec.bootstrap = addrs.iter().map(|a| a.to_string()).collect();
+    let node = sim.add_node(spec);
+    sim.run_for(3 * SEC);
+    // X (peer 0) answers the first call's request slowly, everything else at its ordinary pace
+    let slow = rng.range(700, 1000) * MS;
+    let mut other: Id = rng.id();
+    other[0] ^= 0x80;
+    {
+        let mut slow_used = false;
+        rawnet.set_hook(Box::new(move |rctx, sh, idx, from, msg: &Krpc| {
+            if idx != 0 || msg.target() != Some(other) || slow_used {
+                return HookResult::Default;
+            }
+            if let Some((_, bytes)) = default_reply(sh, idx, rctx.now, from, msg) {
+                slow_used = true;
+                let me = rctx.me;
+                rctx.send_after(slow, me, from, bytes);
+            }
+            HookResult::Handled
+        }));
+    }
+    let t0 = sim.now();
+    let first = match rng.below(3) {
+        0 => sim.find_node(node, other),
+        1 => sim.get_peers(node, other),
+        _ => sim.get_immutable(node, other),
+    };
+    // (a datagram wakes the actor at once, so that the call is taken up now and not at its next poll)
+    let poker = SocketAddrV4::new(priv_ip(77), 7077);
+    let _ = sim.add_raw(poker, None);
+    let node_addr = sim.node_addr(node);
+    let poke = |sim: &Sim, n: u32| sim.raw_send(poker, node_addr, krpc::query(&krpc::tid_bytes(70_000 + n), "ping", krpc::ping_args(&[7u8; 20]), &MsgOpts::default()));
+    poke(&sim, 0);
+    sim.run_for(40 * MS);
+    // when did the first call's request to X go out?
+    let x = addrs[0];
+    let t1 = sim.with_trace(|tr| tr.iter().find(|d| d.from_host == Some(node) && d.dst == x && d.t_send >= t0 && Krpc::parse(&d.bytes).map(|k| k.target() == Some(other)).unwrap_or(false)).map(|d| d.t_send)).unwrap_or(t0);
+    // the second request to X must go out after the first has timed out (500 ms) and early enough to be
+    // outstanding when the first one's late answer arrives, i.e. its own answer (d2 later) comes after that
+    let lo = t1 + (500 * MS).max(slow.saturating_sub(d2)) + 15 * MS;
+    let hi = t1 + slow - 25 * MS;
+    sim.run_until(lo + rng.range(0, hi.saturating_sub(lo) / MS + 1) * MS);
+    let kind = rng.below(3);
+    let second = match kind {
+        0 => sim.get_immutable(node, imm_target),
+        1 => sim.get_mutable(node, pk, None, None),
+        _ => sim.get_peers(node, info_hash),
+    };
+    poke(&sim, 1);
+    let done = sim.run_ops(&[first, second], sim.now() + 120 * SEC);
+    // (whatever is still on its way is delivered: the verdict below asks what X answered, and when)
+    sim.run_for(SEC);
+    if !done {
+        report.violate("hang", "call-did-not-return", "a call of the asked-again family did not return within 120 s".into());
+    }
+    if let Some(d) = sim.died(node) {
+        report.violate("node-died", "node-actor-panicked", format!("node died: {d}"));
+    }
+    // did X answer the second call's request in time? (it does unless that request was never sent)
+    let target2: Id = match kind {
+        0 => imm_target,
+        1 => item.target(),
+        _ => info_hash,
+    };
+    let (asked, answered_in_time, tids) = sim.with_trace(|tr| {
+        let mut sent: Option<(u64, u32)> = None;
+        let mut tids: Vec<u32> = vec![];
+        let mut ok = false;
+        for d in tr.iter() {
+            let Some(k) = Krpc::parse(&d.bytes) else { continue };
+            if d.from_host == Some(node) && d.dst == x && d.t_send >= t0 && k.is_query() {
+                tids.push(k.tid_u32().unwrap_or(0));
+                if k.target() == Some(target2) && sent.is_none() {
+                    sent = Some((d.t_send, k.tid_u32().unwrap_or(0)));
+                }
+            }
+            if let (Some((ts, tid)), true) = (sent, d.src == x && d.fate == Fate::Delivered && k.is_response()) {
+                let has_value = k.body.get("v").is_some() || k.body.get("values").is_some();
+                if k.tid_u32() == Some(tid) && has_value && d.t_deliver.unwrap_or(u64::MAX).saturating_sub(ts) < 450 * MS {
+                    ok = true;
+                }
+            }
+        }
+        (sent.is_some(), ok, tids)
+    });
+    let got_value = sim.with_op(second, |o| match &o.outcome {
+        Some(Outcome::Immutable(v)) => v.is_some(),
+        Some(Outcome::Mutable(items)) => !items.is_empty(),
+        Some(Outcome::Peers(b)) => b.iter().any(|(_, l)| !l.is_empty()),
+        _ => false,
+    });
+    if ctx.verbose {
+        sim.with_trace(|tr| {
+            for d in tr.iter().filter(|d| d.t_send >= t0 && (d.src == x || d.dst == x)) {
+                println!("  {}", trace_line(d));
+            }
+        });
+        println!("asked={asked} answered_in_time={answered_in_time} got_value={got_value}");
+    }
+    let what = format!("asked-again family: peers={n_peers} first answer of {x} after {} ms, second call kind {kind}; requests to it carried tids {tids:?}", slow / MS);
+    if asked && answered_in_time && !got_value && report.violation.is_none() {
+        report.violate("genuine-reply-lost", "genuine-reply-rejected-after-late-reply-to-earlier-request", format!("the second call returned nothing although {x} - the only holder - answered its request with the value within the timeout; {what}"));
+    }
+    report.nontrivial = asked && answered_in_time;
+    report.probe("asked_again_runs", 1);
+    if asked && answered_in_time {
+        report.probe("asked_again_second_request_answered_in_time", 1);
+    }
+    report.fingerprint = crate::rng::key(sim.order_fingerprint(), &[kind, n_peers as u64]);
+    report.sample = Some(json!({"scenario": what}));
+    report.plan_dump = Some(what);
+    finish(&sim, report)
+}
+
 fn run(ctx: &RunCtx) -> Report {
+    if ctx.index % 8 == 7 {
+        return run_asked_again(ctx);
+    }
     let mut report = Report::default();
     let mut rng = Rng::new(ctx.seed);
     let late_wish = rng.chance(1, 3);
